@@ -24,7 +24,9 @@ SynFilterRoutes == {"output", "if_cond", "elif_cond", "for_iter", "with_pair", "
                     "after_param_filter", "in_parens", "binary_operand", "nested_body"}
 \* which file the use is written in
 FileRoutes == {"same", "static_include", "lazy_include", "parent", "grandparent", "import", "ssi_parsed",
-               "include_in_include", "from_file", "from_cache"}
+               "include_in_include", "from_file", "from_cache",
+               \* forgiving references forgive a missing file only, never what an existing file does
+               "static_include_if_exists", "lazy_include_if_exists", "if_exists_in_include", "include_if_exists_of_child"}
 
 VARIABLE v
 
@@ -38,7 +40,7 @@ Vectors == [kind : {"tag"}, syn : SynTagRoutes, file : FileRoutes, status : Stat
 \* A filter named in the `filter` tag's own chain may be rejected at execution at the latest (C19).
 Outcome(x) ==
   IF x.status # "banned" THEN "ok"
-  ELSE IF x.file = "lazy_include" \/ (x.syn = "include_name" /\ FALSE) THEN "exec_error"
+  ELSE IF x.file \in {"lazy_include", "lazy_include_if_exists"} \/ (x.syn = "include_name" /\ FALSE) THEN "exec_error"
   ELSE "compile_error"
 
 Init == v \in Vectors
